@@ -342,7 +342,9 @@ class AFS:
             if r in self.dirs:
                 raise IsADirectoryError(errno.EISDIR, "Is a directory", _s(p))
             self.reads.append(r)
-            return AFile(self.files[r].content, binary)
+            f = AFile(self.files[r].content, binary)
+            f._path = r
+            return f
         if m in ("w", "a", "x", "r+", "w+", "a+"):
             self._parent_ok(r, p)
             if r in self.dirs:
@@ -716,7 +718,9 @@ class AFile:
         self.closed = True
 
     def fileno(self):
-        raise Unsupported("fileno of read file")
+        if getattr(self, "_path", None) is None:
+            raise Unsupported("fileno of an anonymous read file")
+        return _RFd(self._path)
 
     def __enter__(self):
         self._chk()
@@ -883,6 +887,16 @@ class AWFile:
         raise Unsupported("file.%s not modelled" % name)
 
 
+class _RFd:
+    """fileno() of a file open for reading: good for os.fstat."""
+
+    def __init__(self, path):
+        self.path = path
+
+    def __index__(self):
+        return 4
+
+
 class _Fd:
     """What fileno() / os.open return: good for os.fsync, os.fdopen, os.close, os.write."""
 
@@ -1010,9 +1024,18 @@ class OsModel:
             raise FileNotFoundError(errno.ENOENT, "No such file or directory", _s(p))
         self._fs.cwd = r
 
+    def fstat(self, fd):
+        if isinstance(fd, _RFd):
+            return self._fs.stat(fd.path)
+        if isinstance(fd, _Fd):
+            fd.f.flush()
+            return self._fs.stat(fd.f._where())
+        raise Unsupported("os.fstat(%r)" % (fd,))
+
     def fsync(self, fd):
         return None          # pushes the *operating system's* buffers to the disk; the process's own buffer is not its business
 
+    SEEK_SET, SEEK_CUR, SEEK_END = 0, 1, 2
     O_RDONLY, O_WRONLY, O_RDWR, O_APPEND, O_CREAT, O_EXCL, O_TRUNC, O_CLOEXEC = 0, 1, 2, 0o2000, 0o100, 0o200, 0o1000, 0o2000000
 
     def open(self, p, flags, mode=0o777, **k):
